@@ -6,6 +6,7 @@
      frag 3 : + cells (`mut`, `*c`, `c = e`, `c op= e`)
      frag 4 : + calls f(args)
      frag 5 : + closure creation
+     frag 6 : + the iterator operators (collect, reduce, type filter, sum, product)
    [typed_frag]: whatever the judgement types lies in fragment 5 (4 with the empty policy);
    so a stage-k theorem is the preservation theorem restricted to [frag k]. *)
 From SSL.Model Require Import Base Ty Float Value Ops Seq Syntax Rt Recreate Exec Check.
@@ -19,7 +20,7 @@ Definition bin_stage (o : binop) : nat :=
   | Assign | AssignAdd | AssignSubtract | AssignMultiply | AssignDivide | AssignModulo
   | AssignLShift | AssignRShift | AssignBitwiseAnd | AssignBitwiseOr | AssignXor | AssignPow => 3
   | FunctionCall => 4
-  | Filter | Map | Partition => 9
+  | Filter | Map | Partition => 6
   end.
 
 Definition un_stage (u : unop) : nat :=
@@ -27,6 +28,7 @@ Definition un_stage (u : unop) : nat :=
   | UNot | UUnaryMinus => 1
   | UReturn => 2
   | UIndirection => 3
+  | USum | UProduct | UCollect | UIter => 6
   | _ => 9
   end.
 
@@ -54,7 +56,8 @@ Fixpoint frag (k : nat) (i : instr) {struct i} : bool :=
   | IBreak | IContinue => Nat.leb 2 k
   | IMut _ x => Nat.leb 3 k && frag k x
   | IAnonFn _ body _ | IFnDecl _ _ body _ => Nat.leb 5 k && forallb (frag k) body
-  | IReduce _ _ _ | ITypeFilter _ _ => false
+  | IReduce a b c => Nat.leb 6 k && frag k a && frag k b && frag k c
+  | ITypeFilter x _ => Nat.leb 6 k && frag k x
   end.
 
 Definition frag_opt (k : nat) (o : option instr) : bool :=
@@ -78,13 +81,19 @@ Context {FL : Policy}.
 
 Variable kmax : nat.
 Hypothesis kmax_4 : 4 <= kmax.
-Hypothesis kmax_5 : forall W0 G nm ps body r, closure_ok W0 G nm ps body r -> 5 <= kmax.
+Hypothesis kmax_5 : forall W0 G nm ps body r,
+  closure_ok W0 G nm ps body r -> wf_ty (TFun (map snd ps) r) = true -> 5 <= kmax.
+Hypothesis kmax_6 : forall W0 G i, iter_gate W0 G i -> 6 <= kmax.
+
+Lemma kmax_it W0 G i : iter_gate W0 G i -> Nat.leb 6 kmax = true.
+Proof. intros H. apply Nat.leb_le. apply (kmax_6 _ _ _ H). Qed.
 
 Lemma kmax_ge k : k <= 4 -> Nat.leb k kmax = true.
 Proof. intros H. apply Nat.leb_le. lia. Qed.
 
-Lemma kmax_fn W0 G nm ps body r : closure_ok W0 G nm ps body r -> Nat.leb 5 kmax = true.
-Proof. intros H. apply Nat.leb_le. apply (kmax_5 _ _ _ _ _ _ H). Qed.
+Lemma kmax_fn W0 G nm ps body r :
+  closure_ok W0 G nm ps body r -> wf_ty (TFun (map snd ps) r) = true -> Nat.leb 5 kmax = true.
+Proof. intros H Hw. apply Nat.leb_le. apply (kmax_5 _ _ _ _ _ _ H Hw). Qed.
 
 Theorem typed_frag_all W0 :
   (forall G K i T, typed W0 G K i T -> frag kmax i = true) /\
@@ -115,6 +124,12 @@ Proof.
       cbn [forallb] in H; rewrite H end. rewrite kmax_ge by lia. reflexivity.
   - rewrite (opassign_stage _ _ H), kmax_ge by lia. reflexivity.
   - erewrite kmax_fn by eassumption. reflexivity.
+  - erewrite kmax_it by eassumption. reflexivity.
+  - erewrite kmax_it by eassumption. reflexivity.
+  - erewrite kmax_it by eassumption. reflexivity.
+  - erewrite kmax_it by eassumption. reflexivity.
+  - erewrite kmax_it by eassumption. reflexivity.
+  - erewrite kmax_it by eassumption. reflexivity.
   - erewrite kmax_fn by eassumption. reflexivity.
 Qed.
 
@@ -123,13 +138,23 @@ Proof. apply (typed_frag_all W0). Qed.
 
 End WithFlag.
 
-Theorem typed_frag {FL : Policy} W0 G K i T : typed W0 G K i T -> frag 5 i = true.
-Proof. apply (typed_frag_gen 5); [lia|intros; lia]. Qed.
+Theorem typed_frag {FL : Policy} W0 G K i T : typed W0 G K i T -> frag 6 i = true.
+Proof. apply (typed_frag_gen 6); [lia|intros; lia|intros; lia]. Qed.
+
+(* without the iterator gate: fragment 5 *)
+Theorem typed_frag5 {FL : Policy} W0 G K i T :
+  (forall W1 G1 j, ~ iter_gate W1 G1 j) -> typed W0 G K i T -> frag 5 i = true.
+Proof.
+  intros Hno. apply (typed_frag_gen 5); [lia|intros; lia|]. intros W1 G1 j H. destruct (Hno _ _ _ H).
+Qed.
 
 Theorem typed_frag_nofn W0 G K i T :
-  @typed (fun _ _ _ _ _ _ => False) W0 G K i T -> frag 4 i = true.
+  @typed no_fn_policy W0 G K i T -> frag 4 i = true.
 Proof.
-  apply (@typed_frag_gen (fun _ _ _ _ _ _ => False) 4); [lia|]. intros W1 G1 nm ps body r [].
+  apply (@typed_frag_gen no_fn_policy 4); [lia| |].
+  - intros W1 G1 nm ps body r [_ ->] Wf. cbn [wf_ty] in Wf. apply andb_true_iff in Wf.
+    destruct Wf as [_ Wf]. discriminate Wf.
+  - intros W1 G1 j Hg. exfalso. apply Hg. split; reflexivity.
 Qed.
 
 Lemma forallb_impl {A} (f g : A -> bool) l :
